@@ -124,7 +124,7 @@ def check_constraints(col, rep, case, out, inp, truthful):
         return
     # ---- noise 0: the support contains the uncensored observations and reaches the limits with censored mass
     n, n_lower, n_upper, obs, lo, hi = F.observed_part(case)
-    rep.case(("support", id(out)))
+    rep.case(("support", case["cls"], tuple(case["ys"]), tuple(case["limits"]), repr(case["constraints"])))
     # explicit predicates for the finding keys (rounded values; box ends a-, b+ of the returned shape's pass)
     on_lo_end = on_hi_end = f6b = f6c = f11 = False
     sp = None
